@@ -198,7 +198,14 @@ def replay_history(st):
     from statham.schema.validation.format import format_checker as fc
     _COUNTER[0] += 1
     tagname = "x-c16-%d-%d-" % (os.getpid(), _COUNTER[0])
-    conc = lambda n: n if n == "uuid" else tagname + n     # noqa: E731
+    # the abstract names a, b, c are interchangeable in the model; the concrete spelling varies:
+    # every fourth behaviour uses names without a letter or digit (the registry is restored
+    # after each behaviour, so fixed names are still fresh)
+    odd = {"a": "", "b": "-", "c": " :: "}
+    if _COUNTER[0] % 4 == 0:
+        conc = lambda n: n if n == "uuid" else odd.get(n, tagname + n)     # noqa: E731
+    else:
+        conc = lambda n: n if n == "uuid" else tagname + n     # noqa: E731
     # which class keeps its element across the behaviour and which is built afresh for every
     # call alternates with a stable hash of the history
     flip = zlib.crc32(json.dumps(st["hist"], sort_keys=True).encode()) & 1
